@@ -71,3 +71,22 @@ Proof.
   - destruct (find 0 l) as [z|] eqn:E; [|reflexivity].
     destruct (find_some 0 l z E) as [Hin Hz]. exfalso. exact (wf_hash_nz l Hw z Hin Hz).
 Qed.
+
+(* the splice at the load horizon *)
+Lemma listN_eqb'_eq a : forall b, listN_eqb' a b = true -> a = b.
+Proof.
+  induction a as [|x a IH]; intros [|y b] H; cbn in H; try discriminate; [reflexivity|].
+  apply andb_true_iff in H. destruct H as [H1 H2]. apply N.eqb_eq in H1. subst. f_equal. apply IH. exact H2.
+Qed.
+
+(* if the file history agrees with the chain under the index below the horizon, what Load reports
+   is that chain - every crash image is then as sound as an uninterrupted run *)
+Theorem splice_sound hist mem p : agree_below hist mem p = true -> splice hist mem p = mem.
+Proof.
+  unfold agree_below, splice. intros H. apply listN_eqb'_eq in H. rewrite H. apply firstn_skipn.
+Qed.
+
+(* ... and if it does not, the reported chain is a splice of two different chains (D27) *)
+Theorem splice_refuted : exists hist mem p, agree_below hist mem p = false /\ splice hist mem p <> mem /\
+  splice hist mem p <> hist.
+Proof. exists [1; 11; 12; 13], [1; 2; 3; 4; 6; 8], 3%nat. repeat split; vm_compute; congruence. Qed.
